@@ -139,10 +139,42 @@ Qed.
 Lemma lvl_sgn s w z : lvl_of s (sgn w * z) = lvl_of s z.
 Proof. unfold lvl_of. by rewrite absn_sgn. Qed.
 
+(** ** room below [max_nodes] for [k] more nodes *)
+Definition room (s : st) (k : nat) : Prop :=
+  match max_nodes s with
+  | None => True
+  | Some n => size (succ s) + k + 1 < Pos.to_nat n
+  end.
+Lemma room_le s k k' : k' ≤ k → room s k → room s k'.
+Proof. unfold room. destruct (max_nodes s); [lia|done]. Qed.
+Lemma room_same s s' k : succ s' = succ s → max_nodes s' = max_nodes s → room s k → room s' k.
+Proof. unfold room. by intros -> ->. Qed.
+Lemma room_unbounded s k : max_nodes s = None → room s k.
+Proof. unfold room. by intros ->. Qed.
+Lemma room_fits s t k :
+  succ s !! min_free s = None →
+  (∀ j, (j < min_free s)%positive → is_Some (succ s !! j)) → room s (S k) →
+  fits (max_nodes s)
+       (next_free (S (size (<[min_free s := t]> (succ s)))) (<[min_free s := t]> (succ s))
+                  (min_free s)) = true.
+Proof.
+  intros Hf Hb. unfold room, fits. destruct (max_nodes s) as [n|]; [|done].
+  intros Hr. apply bool_decide_eq_true. apply find_or_add_room; [done|done|lia].
+Qed.
+(** one more node *)
+Lemma room_add s u t k (f : st → st) :
+  succ s !! u = None → succ (f s) = <[u := t]> (succ s) → max_nodes (f s) = max_nodes s →
+  room s (S k) → room (f s) k.
+Proof.
+  intros Hu Es Em. unfold room. rewrite Em, Es. destruct (max_nodes s); [|done].
+  rewrite map_size_insert_None by done. lia.
+Qed.
+
 Lemma foa_run s i v w :
   last_len s = None → i < nvars s → valid s v → valid s w →
   dom (refc s) = dom (succ s) →
   succ s !! min_free s = None → (1 < min_free s)%positive →
+  (∀ j, (j < min_free s)%positive → is_Some (succ s !! j)) → room s 1 →
   find_or_add i v w s =
     if decide (sgn w * v = sgn w * w)%Z then (Ok v, s) else
     match pred s !! Triple i (sgn w * v) (sgn w * w) with
@@ -152,7 +184,7 @@ Lemma foa_run s i v w :
                  (add_node s (min_free s) (Triple i (sgn w * v) (sgn w * w)))))
     end.
 Proof.
-  intros Hll Hi Hv Hw Hrd Hfree Hmf. unfold find_or_add.
+  intros Hll Hi Hv Hw Hrd Hfree Hmf Hbelow Hroom. unfold find_or_add.
   assert (Hrr : request_reordering s = (Ok tt, s)).
   { unfold request_reordering. by rewrite Hll. }
   rewrite (bind_ok _ _ _ _ _ Hrr). cbn [bind get].
@@ -163,6 +195,7 @@ Proof.
   { subst v'. by rewrite sgn_sgn. }
   destruct (pred s !! Triple i v' w') as [u|] eqn:Hp; [done|].
   unfold assert. rewrite !bool_decide_eq_true_2 by done. cbn [bind ret modify].
+  rewrite (room_fits s (Triple i v' w') 0 Hfree Hbelow Hroom). cbn [ensure bind ret modify].
   fold (add_node s (min_free s) (Triple i v' w')).
   set (s2 := add_node s (min_free s) (Triple i v' w')).
   assert (Hv' : valid s v') by (by apply valid_sgn).
@@ -256,6 +289,7 @@ Qed.
 Lemma foa_mid s0 x s T v w :
   Mid s0 x s T → x + 1 < nvars s0 →
   valid s v → valid s w → x + 1 < lvl_of s v → x + 1 < lvl_of s w →
+  room s 1 →
   ∃ p s', find_or_add (x + 1) v w s = (Ok p, s') ∧ Mid s0 x s' T ∧
     succ s ⊆ succ s' ∧ foa_res s' (x + 1) v w p ∧
     (∀ n, succ s !! n = None → is_Some (succ s' !! n) →
@@ -265,11 +299,11 @@ Lemma foa_mid s0 x s T v w :
      s' = bump (sgn w * w) (bump (sgn w * v)
             (add_node s (min_free s) (Triple (x + 1) (sgn w * v) (sgn w * w))))).
 Proof.
-  intros HM Hy Hv Hw Hlv Hlw.
-  destruct (m_free _ _ _ _ HM) as [Hfree _].
+  intros HM Hy Hv Hw Hlv Hlw Hroom.
+  destruct (m_free _ _ _ _ HM) as [Hfree Hbelow].
   rewrite (foa_run s (x + 1) v w (m_ll _ _ _ _ HM)
              ltac:(rewrite (Mid_nvars _ _ _ _ HM); lia) Hv Hw (m_ref _ _ _ _ HM) Hfree
-             (Mid_min_free _ _ _ _ HM)).
+             (Mid_min_free _ _ _ _ HM) Hbelow Hroom).
   case_decide as E.
   { exists v, s. split_and!; try done; [by left| |by left].
     intros n Hn [? ?]. congruence. }
@@ -287,6 +321,21 @@ Proof.
       unfold lvl_of. rewrite absn_sgn, absn_pos, Hnew. done.
     + rewrite lookup_insert_ne in Hn' by done. destruct Hn'. congruence.
   - right. done.
+Qed.
+
+(** the room left after one [find_or_add] *)
+Lemma foa_room s i v w k s' :
+  room s (S k) →
+  (s' = s ∨
+   (sgn w * v ≠ sgn w * w)%Z ∧ succ s !! min_free s = None ∧
+   s' = bump (sgn w * w) (bump (sgn w * v)
+          (add_node s (min_free s) (Triple i (sgn w * v) (sgn w * w))))) →
+  room s' k.
+Proof.
+  intros Hr [->|(_&Hf&->)]; [apply (room_le s (S k)); [lia|done]|].
+  by apply (room_add s (min_free s) (Triple i (sgn w * v) (sgn w * w)) k
+              (fun s => bump (sgn w * w) (bump (sgn w * v)
+                 (add_node s (min_free s) (Triple i (sgn w * v) (sgn w * w)))))).
 Qed.
 
 (** ** counts while node [u] is detached (its out-edges already decref'd) *)
@@ -344,11 +393,11 @@ Qed.
 Lemma foa_mid_counts s0 x s T L u v w p s' :
   Inv s0 → Mid s0 x s T → x + 1 < nvars s0 →
   valid s v → valid s w → x + 1 < lvl_of s v → x + 1 < lvl_of s w →
-  CountsD s L u → u ∈ dom (succ s) →
+  CountsD s L u → u ∈ dom (succ s) → room s 1 →
   find_or_add (x + 1) v w s = (Ok p, s') → CountsD s' L u.
 Proof.
-  intros HI HM Hy Hv Hw Hlv Hlw HC Hu Hrun.
-  destruct (foa_mid s0 x s T v w HM Hy Hv Hw Hlv Hlw) as (p'&s''&Hrun'&_&_&_&_&Hs).
+  intros HI HM Hy Hv Hw Hlv Hlw HC Hu Hroom Hrun.
+  destruct (foa_mid s0 x s T v w HM Hy Hv Hw Hlv Hlw Hroom) as (p'&s''&Hrun'&_&_&_&_&Hs).
   rewrite Hrun in Hrun'. injection Hrun' as -> ->.
   destruct Hs as [->|(_&Hfree&->)]; [done|].
   apply CountsD_add; try done; try (by apply valid_sgn).
